@@ -16,14 +16,15 @@
 (* Payload is abstract: PDU p is the train <<p,1>>,<<p,2>>,<<p,3>> and the *)
 (* CRC names the PDU it was computed over (a perfect checksum).            *)
 (***************************************************************************)
-EXTENDS GseSender, TLC
+EXTENDS GseSender, TLC, SequencesExt
 
 CONSTANTS MaxPdus,     \* PDUs the sender may submit
           FragIds,     \* fragment ids the sender uses
           Slots,       \* receiver memory slots (id % Slots)
           QLen,        \* packets in flight
           Loss, Dup,   \* BOOLEAN: the channel may lose / duplicate the packet at its head
-          Maxes        \* values for enable_re_use_label_with_max_consecutive
+          Maxes,       \* values for enable_re_use_label_with_max_consecutive
+          Export, Depth \* Export = TRUE: record the actions as scenario tokens and print each behaviour of length Depth (S->I)
 
 LA == [k |-> "six", b |-> <<1, 2, 3, 4, 5, 6>>]
 LB == [k |-> "three", b |-> <<7, 7, 1>>]
@@ -38,12 +39,17 @@ VARIABLES tx,        \* sender label state (GseSender)
           chan,      \* packets in flight, in order
           last,      \* receiver label memory: NoLabel | Broadcast | a full label
           slot,      \* receiver contexts
-          deliv      \* sequence of [pdu, label] delivered (ghost)
-vars == <<tx, nsent, sent, open, chan, last, slot, deliv>>
+          deliv,     \* sequence of [pdu, label] delivered (ghost)
+          hist       \* ghost (Export only): scenario tokens for `gse_harness sysscn --scn`
+vars == <<tx, nsent, sent, open, chan, last, slot, deliv, hist>>
+Rec(tok) == hist' = IF Export THEN Append(hist, tok) ELSE hist
+LabTok(L) == CASE L = LA -> "A" [] L = LB -> "B" [] L = Broadcast -> "bc" [] OTHER -> "ru"
+ExportInv == (Export /\ Len(hist) = Depth) =>
+                PrintT("SCNLINE " \o ToString(Slots) \o FoldLeft(LAMBDA a, b : a \o " " \o b, "", hist))
 
 Init ==
   /\ tx = TxInit /\ nsent = 0 /\ sent = [p \in {} |-> 0] /\ open = {} /\ chan = <<>>
-  /\ last = NoLabel /\ slot = [k \in 0..(Slots - 1) |-> NoCtx] /\ deliv = <<>>
+  /\ last = NoLabel /\ slot = [k \in 0..(Slots - 1) |-> NoCtx] /\ deliv = <<>> /\ hist = <<>>
 
 \* ------------------------------------------------------------------ sender
 WireLabel(s, L) == IF SubstAllowed(s, L) THEN "ru" ELSE L.k
@@ -62,22 +68,26 @@ Submit(L, frag, id) ==
         /\ chan' = Append(chan, pkt)
         /\ open' = IF frag THEN open \cup {[pdu |-> p, id |-> id, next |-> 2]} ELSE open
   /\ UNCHANGED <<last, slot, deliv>>
+  /\ Rec("sub:" \o LabTok(L) \o ":" \o (IF frag THEN "1" ELSE "0") \o ":" \o ToString(id))
 
 Continue(o) ==
   /\ Len(chan) < QLen
   /\ chan' = Append(chan, [kind |-> IF o.next = 3 THEN "end" ELSE "inter", pdu |-> o.pdu, id |-> o.id, wl |-> ReUseL, k |-> o.next])
   /\ open' = IF o.next = 3 THEN open \ {o} ELSE (open \ {o}) \cup {[o EXCEPT !.next = 3]}
   /\ UNCHANGED <<tx, nsent, sent, last, slot, deliv>>
+  /\ Rec("cont:" \o ToString(o.id))
 
 Configure(op, n) ==
   /\ tx' = TxCfg(tx, op, n)
   /\ UNCHANGED <<nsent, sent, open, chan, last, slot, deliv>>
+  /\ Rec("cfg:" \o op \o ":" \o ToString(n))
 
 \* frame boundary: nothing in flight, both label memories reset together (trains go on)
 Frame ==
   /\ chan = <<>>
   /\ tx' = TxCfg(tx, "reset", 0) /\ last' = NoLabel
   /\ UNCHANGED <<nsent, sent, open, chan, slot, deliv>>
+  /\ Rec("frame")
 
 \* ---------------------------------------------------------------- receiver
 Resolve(wl) == IF wl.k = "ru" THEN (IF IsFullKind(last.k) THEN last ELSE NoLabel) ELSE wl
@@ -109,9 +119,9 @@ RxStep(pk) ==
          /\ deliv' = IF slot[k].used /\ slot[k].id = pk.id /\ slot[k].n = 2 /\ slot[k].pdu = pk.pdu /\ pk.pdu # 0
                      THEN Append(deliv, [pdu |-> pk.pdu, label |-> slot[k].label]) ELSE deliv
 
-Recv == /\ chan # <<>> /\ RxStep(Head(chan)) /\ chan' = Tail(chan) /\ UNCHANGED <<tx, nsent, sent, open>>
-Lose == /\ Loss /\ chan # <<>> /\ chan' = Tail(chan) /\ UNCHANGED <<tx, nsent, sent, open, last, slot, deliv>>
-Twice == /\ Dup /\ chan # <<>> /\ RxStep(Head(chan)) /\ UNCHANGED <<tx, nsent, sent, open, chan>>
+Recv == /\ chan # <<>> /\ RxStep(Head(chan)) /\ chan' = Tail(chan) /\ UNCHANGED <<tx, nsent, sent, open>> /\ Rec("recv")
+Lose == /\ Loss /\ chan # <<>> /\ chan' = Tail(chan) /\ UNCHANGED <<tx, nsent, sent, open, last, slot, deliv>> /\ Rec("lose")
+Twice == /\ Dup /\ chan # <<>> /\ RxStep(Head(chan)) /\ UNCHANGED <<tx, nsent, sent, open, chan>> /\ Rec("twice")
 
 Next ==
   \/ \E L \in Passed, frag \in BOOLEAN, id \in FragIds : Submit(L, frag, id)
@@ -121,6 +131,8 @@ Next ==
   \/ Frame \/ Recv \/ Lose \/ Twice
 
 Spec == Init /\ [][Next]_vars
+\* a duplicating channel can deliver the same complete packet for ever: bound the ghost
+Bounded == Len(deliv) <= MaxPdus + 2
 
 \* -------------------------------------------------------------- properties
 Delivered(p) == {i \in 1..Len(deliv) : deliv[i].pdu = p}
